@@ -21,8 +21,8 @@ func init() {
 			"inputs finite (no NaN)",
 		},
 		Workloads: []core.Workload{
-			{Name: "purity", Variant: "plain", N: core.Tiered(41*6, 41*400), Run: c14Purity},
-			{Name: "causal", Variant: "plain", N: core.Tiered(41*6, 41*400), Run: c14Causal},
+			{Name: "purity", Variant: "plain", N: core.Tiered(41*18, 41*400), Run: c14Purity},
+			{Name: "causal", Variant: "plain", N: core.Tiered(41*18, 41*400), Run: c14Causal},
 		},
 	})
 }
